@@ -233,10 +233,12 @@ def run_scenario(sc, fault, env, res):
             except Exception as e2:
                 errs.append("after-error checks raised %s" % type(e2).__name__)
     calls = subj.calls
-    # (a failure before the first render -- size validation, _get_render_size_ -- leaves data
-    # the caller never received; there the collector's finalization is what the property's
-    # "garbage-collected" clause covers, so only "exactly once after collection" is asserted)
-    if hold and outcome != "KeyboardInterrupt" and not (fault and fault[0] in ("too-small", "size")):
+    # (a failure while the data object is still being filled -- _get_render_size_ -- leaves an
+    # object nobody ever received; there the collector's finalization is what the property's
+    # "garbage-collected" clause covers, so only "exactly once after collection" is asserted.
+    # A failing size *validation* happens after the data exists: the operation has failed and
+    # the data must be finalized by then.)
+    if hold and outcome != "KeyboardInterrupt" and not (fault and fault[0] == "size"):
         for rd_ in S.held:
             try:
                 tok = rd_[S.Subj].token
